@@ -11,7 +11,7 @@ CFG = {
             "variable part is one of 24 fixed fills (empty, quotes, backslashes, control characters, 2/3/4-byte "
             "UTF-8, BOM, U+10FFFF, ...), seeded random fills, and a sweep of envelope lengths 370..392 bytes (token "
             "lengths 496..524, the bound being 384 <-> 512) with pad characters of JSON width 1, 2 (escape), 2, 3, 4 "
-            "(UTF-8) and 6 (\\u00XX), plus 400 .. 1,000,000 bytes; each issued token is fed back through "
+            "(UTF-8) and 6 (\\u00XX), plus 400 .. 10,000 (thorough 100,000) bytes; each issued token is fed back through "
             "serde_urlencoded::from_str::<PaginationParams<Scan, Sel>>. accept cases - issued tokens, hand-encoded "
             "tokens for the same boundary selectors (accept must mirror issue), valid envelopes padded with JSON "
             "whitespace to 381..388 bytes, ~70 envelope edits before re-encoding (field order, whitespace, extra / "
